@@ -24,7 +24,7 @@ EXPLANATION = (
     ' Added after seed round 3: signal_restore is understood also when folded into a loop over (signal, saved handler) pairs and the restored expression may replace only a None / false saved value by SIG_DFL; (5) inside the batch loop of process_input the top widget (and anything derived from it) is read afresh for every event.'
     ' Round 4: a signal that signal_init() does not replace (SIGCONT) is restored only under a flag raised where it is replaced; the Twisted capturing wrapper catches BaseException (C13.1).'
     ' Round 5: (7) TrioEventLoop takes off at most the one ExceptionGroup layer its own nursery adds; (8) PAIR: every hook MainLoop.start() registers (idle callback, input watchers, descriptor-change signal, started screen) is released by stop() on all its normal paths and _run() passes stop() on the normal and on the exceptional exit (before fix 35c16b8 an exception-terminated run() left the watchers and the idle redraw in the event loop); a `finally` around event_loop.run() must not contain return / raise / break.'
-    ' Round 6: (9) MEMO: every PopUpTarget entry point calls _update_overlay() before it routes to _current_widget (a batch of events is delivered without a redraw in between).'
+    ' Round 6: (9) MEMO: every PopUpTarget entry point calls _update_overlay() before it routes to _current_widget (a batch of events is delivered without a redraw in between); (11) start() drops the cached screen size (fix for two sessions with a resize in between).'
 )
 NOT_DECIDED = "That the terminal really ends up in its initial modes (needs a pty), delivery order across reads, redraw-before-wait timing, failures inside MainLoop.start()/stop() themselves."
 ASSUMPTIONS = ["glib_loop.py cannot be imported here; its reports are informational only."]
@@ -556,6 +556,29 @@ def rule_popup_fresh(ctx: Ctx) -> RuleResult:
     return rr
 
 
+def rule_size_reasked(ctx: Ctx) -> RuleResult:
+    """'the screen is redrawn from the resulting widget state': MainLoop caches the terminal size in screen_size and
+    forgets it only when a "window resize" event arrives.  A stopped screen delivers no such event (its SIGWINCH
+    handler is removed by stop()), so start() has to forget the cached size itself - every normal path through
+    start() after screen.start() stores None into the attribute that the resize handling resets."""
+    p = ctx.p
+    rr = RuleResult("PASS", "C12.11", "MainLoop.start() drops the cached screen size (the reset a 'window resize' event makes cannot happen while the screen is stopped)", floor=1)
+    upd = p.func(f"{ML}._update")
+    attrs = sorted({t.attr for n in upd.own_nodes() if isinstance(n, ast.Assign) and isinstance(n.value, ast.Constant) and n.value.value is None for t in n.targets if isinstance(t, ast.Attribute)})
+    if not attrs:
+        raise AnalysisError("MainLoop._update: the reset of the cached screen size on 'window resize' was not found")
+    st = p.func(f"{ML}.start")
+    cfg = cfg_of(st)
+    starts = nodes_where(cfg, lambda c: isinstance(c, ast.Call) and isinstance(c.func, ast.Attribute) and c.func.attr == "start" and ast.unparse(c.func.value) == "self.screen")
+    for a in attrs:
+        resets = [n for n in cfg.nodes if isinstance(n.ast, ast.Assign) and isinstance(n.ast.value, ast.Constant) and n.ast.value.value is None and any(isinstance(t, ast.Attribute) and t.attr == a for t in n.ast.targets)]
+        ok = bool(starts) and bool(resets) and all(cfg.must_pass(s_, resets, ends=[cfg.exit], labels=("n", "T", "F")) for s_ in starts)
+        rr.inst(f"start() resets {a}", True, {"cached": a, "reset_in_start": ok})
+        if not ok:
+            rr.add(finding("PASS", st, st.node, f"start() does not reset self.{a}, which is otherwise only dropped when a 'window resize' event arrives: a second run() after the terminal changed size while the screen was stopped renders and draws at the old size", construct=f"start() keeps the cached {a}"))
+    return rr
+
+
 def run(ctx: Ctx):
     return [
         rule_run_restores(ctx),
@@ -567,6 +590,7 @@ def run(ctx: Ctx):
         _carry_over(ctx),
         rule_exception_identity(ctx),
         rule_popup_fresh(ctx),
+        rule_size_reasked(ctx),
         _redraw_armed(ctx),
     ]
 
@@ -576,6 +600,7 @@ from ..mutants import Mut  # noqa: E402
 _M = "urwid/event_loop/main_loop.py"
 _P = "urwid/display/_posix_raw_display.py"
 MUTANTS = [
+    Mut("start-keeps-cached-screen-size", _M, "MainLoop.start", "        self.screen_size = None\n", "", "PASS|event_loop.main_loop.MainLoop.start|start() keeps the cached screen_size"),
     Mut("popup-keypress-stale-overlay", "urwid/widget/popup.py", "PopUpTarget.keypress", "        self._update_overlay(size, True)\n", "", "MEMO|widget.popup.PopUpTarget.keypress|keypress: _current_widget used without refreshing the overlay"),
     Mut("popup-mouse-stale-overlay", "urwid/widget/popup.py", "PopUpTarget.mouse_event", "        self._update_overlay(size, focus)\n", "", "MEMO|widget.popup.PopUpTarget.mouse_event|mouse_event: _current_widget used without refreshing the overlay"),
     Mut("trio-unwraps-every-singleton-group", "urwid/event_loop/trio_loop.py", "TrioEventLoop._handle_main_loop_exception", "        if isinstance(exc, BaseExceptionGroup) and len(exc.exceptions) == 1:", "        while isinstance(exc, BaseExceptionGroup) and len(exc.exceptions) == 1:", "PASS|event_loop.trio_loop.TrioEventLoop._handle_main_loop_exception"),
